@@ -185,10 +185,13 @@ Example C01_example_renames :
 Proof. exact example_renames. Qed.
 Print Assumptions C01_example_renames.
 
-(* ------------------------------------------------------------------ refutations (open findings) *)
-(* import mb as k / print(k.y): a rename at k also moves mb.py while `mb` in the import statement keeps its spelling *)
+(* ------------------------------------------------------------------ two defects that were found and fixed *)
+(* These two statements are about the code AS IT WAS FOUND ([project_rename_as_found]); the defects were repaired in
+   /repo (commits 94dbab8 and 3758d0a), the model the correspondence ties to the code is the repaired one, and the
+   [_fixed] examples state the present behaviour on the same witnesses (corpus/C01 replays them on every run). *)
+(* import mb as k / print(k.y): a rename at k also moved mb.py while `mb` in the import statement kept its spelling *)
 Theorem C01_module_alias_refuted :
-  p_rename w_module_alias_moves_module_mods w_module_alias_moves_module_builtins
+  p_rename_as_found w_module_alias_moves_module_mods w_module_alias_moves_module_builtins
            w_module_alias_moves_module_idents w_module_alias_moves_module_init
            w_module_alias_moves_module_call w_module_alias_moves_module_odd w_module_alias_moves_module_prop w_module_alias_moves_module_q
   = RChanges false [(0%nat, [3; 7]%N)] [1%nat]
@@ -199,13 +202,32 @@ Theorem C01_module_alias_refuted :
 Proof. exact module_alias_refuted. Qed.
 Print Assumptions C01_module_alias_refuted.
 
-(* x = [1, 2] / print(len(x)): a rename at len is accepted and respells the builtin *)
+Example C01_module_alias_fixed :
+  p_rename w_module_alias_moves_module_mods w_module_alias_moves_module_builtins
+           w_module_alias_moves_module_idents w_module_alias_moves_module_init
+           w_module_alias_moves_module_call w_module_alias_moves_module_odd w_module_alias_moves_module_prop w_module_alias_moves_module_q
+  = RChanges false [(0%nat, [3; 7]%N)] []
+  /\ left_behind_now w_module_alias_moves_module_mods w_module_alias_moves_module_builtins
+                 w_module_alias_moves_module_idents w_module_alias_moves_module_init
+                 w_module_alias_moves_module_call w_module_alias_moves_module_odd w_module_alias_moves_module_prop w_module_alias_moves_module_q
+     = false.
+Proof. exact module_alias_fixed. Qed.
+Print Assumptions C01_module_alias_fixed.
+
+(* x = [1, 2] / print(len(x)): a rename at len was accepted and respelled the builtin *)
 Theorem C01_builtin_refuted :
   builtin_respelled w_builtin_renamed_mods w_builtin_renamed_builtins w_builtin_renamed_idents
                     w_builtin_renamed_init w_builtin_renamed_call w_builtin_renamed_odd w_builtin_renamed_prop w_builtin_renamed_q = true.
 Proof. exact builtin_refuted. Qed.
 Print Assumptions C01_builtin_refuted.
 
+Example C01_builtin_fixed :
+  p_rename w_builtin_renamed_mods w_builtin_renamed_builtins w_builtin_renamed_idents
+           w_builtin_renamed_init w_builtin_renamed_call w_builtin_renamed_odd w_builtin_renamed_prop w_builtin_renamed_q = RRefused.
+Proof. exact builtin_fixed. Qed.
+Print Assumptions C01_builtin_fixed.
+
+(* ------------------------------------------------------------------ refutations (open findings) *)
 (* z = 2 / print([z for z in range(z)]): outside the domain; after renaming the global z the z of range(z) denotes
    nothing *)
 Theorem C01_comprehension_first_iterable_refuted :
